@@ -484,15 +484,20 @@ func execC13(sc *C13Scenario, tr *kit.Trace, res *kit.Result) {
 			fastFailureOnPath := false
 			for _, z := range c13Zones {
 				if dns.IsSubDomain(z, dns.CanonicalName(op.Name)) {
-					if o := inOutage(z, arrive); o != nil && (o.Kind == "servfail" || o.Kind == "refused") {
-						fastFailureOnPath = true // which zone is reached depends on cached delegations
+					// (an outage that begins while the question is being resolved counts too)
+					for _, at := range []time.Duration{arrive, done} {
+						if o := inOutage(z, at); o != nil && (o.Kind == "servfail" || o.Kind == "refused") {
+							fastFailureOnPath = true // which zone is reached depends on cached delegations
+						}
 					}
 				}
 			}
 			local := strings.Contains(ede, "budget") ||
 				(op.DeadlineMs > 0 && !fastFailureOnPath && (o1 == nil || o1.Kind == "silent" || o1.Kind == "slow"))
-			if selfFailing && op.DeadlineMs > 0 && lat < time.Duration(op.DeadlineMs)*time.Millisecond-5*time.Millisecond && !strings.Contains(ede, "budget") {
-				local = false // the loop was found out well before the client's deadline: a genuine failure
+			if op.DeadlineMs > 0 && lat < time.Duration(op.DeadlineMs)*time.Millisecond-5*time.Millisecond && !strings.Contains(ede, "budget") && upstream > 0 && m != nil {
+				// the failure came well before the client's deadline: the deadline did not
+				// cause it, whatever did (an alias loop, servers refusing) is a genuine failure
+				local = false
 			}
 			if op.DeadlineMs > 0 && !local {
 				o1 = nil // fast failure rcodes under a deadline: either reading is legitimate
